@@ -28,6 +28,7 @@ EXPLANATION = (
     "trace sums operator[j][f(j)] * nz(j) over all columns without conjugation and divides by 2**n, label k of "
     "position i becomes letter k on qubit i, and bin2dec/dec2bin are both most-significant-first. "
     "(D4t) the density-matrix expectation is the trace of the matrix product (an element-wise product is tr(rho O^T)); (D6) the conversions keep no state: no cache on the operand object, no module-level cache."
+    ' Round 4: no matrix is widened by an identity factor on the left in the expectation path.'
 )
 RULE_TEXT = "instances = branches of the five anchored functions, table entries of the phase/flip/letter tables, padding linear forms, guard dominance sites; distinct by (rule, construct)"
 ASSUMPTIONS = [
